@@ -67,6 +67,11 @@ func runC12(p *core.Program, r *core.Report) {
 		isCall := func(in ssa.Instruction) bool { return in == ssa.Instruction(call) }
 		skip := canReachBlockWithout(body, sc.header, isCall)
 		c.ob("PT1", s.name, "callback exactly once per element", p.InstrPos(call), !skip && loopDepth(fn, call.Block()) == 1, "an iteration can finish without calling the callback, or calls it in a nested loop: elements are skipped or visited repeatedly")
+		for _, b := range fn.Blocks {
+			if rt, isRt := b.Instrs[len(b.Instrs)-1].(*ssa.Return); isRt {
+				c.ob("PT5", s.name, "returns only after the scan", p.InstrPos(rt), sc.header.Dominates(b) && !path.NaturalLoop(sc.header)[b], "a return is reachable that is not behind the scan over the input: some inputs take a side path that visits the elements differently")
+			}
+		}
 		switch s.name {
 		case "gogu.Map":
 			okSt := false
@@ -168,6 +173,7 @@ func runC12(p *core.Program, r *core.Report) {
 				c.ob("PV3", name, "extra "+e.kind, p.InstrPos(e.in), false, fmt.Sprintf("unexpected placement %s(%s <- %s)", e.kind, e.key, e.val))
 			}
 		}
+		c14ReturnsAfterScan(c, fn, name, ems)
 	}
 	// mapByIndex's last map update stores the append result back under the same key; GroupBy = mapByIndex(slice, Map(slice, fn))
 	if fn := c.fn("gogu.mapByIndex"); fn != nil {
